@@ -382,8 +382,14 @@ def run_family_sharded(modname: str, fam: Family, seed: int, n: int, shards: int
     per = max(1, n // shards)
     jobs = [(modname, fam.name, seed * 1000 + i, per, use_model, corpus if i == 0 else [], (i, shards)) for i in range(shards)]
     ctx = mp.get_context("fork")
-    with ctx.Pool(min(shards, 16)) as pool:
+    pool = ctx.Pool(min(shards, 16))
+    try:
         parts = pool.map(_shard, jobs)
+    finally:
+        # close + join (not the context manager's terminate): the workers leave through multiprocessing's exit function and run their
+        # clean-up (core.at_exit / core.mkdtemp: scratch directories, scripted peers)
+        pool.close()
+        pool.join()
     total = FamResult(fam.name)
     for p in parts:
         total.merge(p)
